@@ -152,12 +152,11 @@ func (v *visitor) VisitPrimaryExpr(ctx *parser.PrimaryExprContext) any {
 			// map["key"]
 			var name string
 			index := ctx.Index().Expression().Accept(v)
-			switch iv := index.(type) {
-			case int64:
+			if iv, ok := IsInt(index); ok { // 任意整数类型 如 range 的下标变量是 int
 				name = strconv.FormatInt(iv, 10)
-			case string:
+			} else if iv, ok := index.(string); ok {
 				name = iv
-			default:
+			} else {
 				return v.SetError(ctx, "expected index to be int or string, got %T(%v)",
 					index, index)
 			}
@@ -173,6 +172,12 @@ func (v *visitor) VisitPrimaryExpr(ctx *parser.PrimaryExprContext) any {
 				return v.SetError(ctx, "slice operator only works on array or slice, got %T(%v)",
 					primaryValue, primaryValue)
 			}
+			if rk == reflect.Array && !rv.CanAddr() {
+				// 数组的值不可寻址 无法直接切片 复制到可寻址的变量上再切
+				arr := reflect.New(rv.Type()).Elem()
+				arr.Set(rv)
+				rv = arr
+			}
 			start := 0
 			end := rv.Len()
 			// arr[?:?]
@@ -180,7 +185,7 @@ func (v *visitor) VisitPrimaryExpr(ctx *parser.PrimaryExprContext) any {
 			sctx := ctx.Slice()
 			var getIntValue = func(e parser.IExpressionContext) (int64, error) {
 				val := e.Accept(v)
-				if i, ok := val.(int64); ok {
+				if i, ok := IsInt(val); ok { // 任意整数类型
 					return i, nil
 				} else {
 					return 0, errors.Errorf("expected integer, got %T(%v)", val, val)
